@@ -368,6 +368,9 @@ func (w *world) buildOIDCTokens() {
 	// unsigned token (alg none), hand-assembled
 	w.tokens["oidc-alg-none"] = "eyJhbGciOiJub25lIn0." + b64(must(json.Marshal(w.oidcClaims("system:serviceaccount:istio-system:istiod", ok)))) + "."
 	w.tokens["oidc-garbage"] = "a.b.c"
+	for _, g := range oidcGenerated() {
+		sub(g.Name, g.Sub)
+	}
 }
 
 // ---- client certificates ----------------------------------------------------------------------------
